@@ -12,11 +12,11 @@ From Verif Require Import Base.Common Gen.Consts_default Model.C03 Proofs.C03.
 (* Registration succeeds exactly for acceptable, not-yet-taken ids while there is room; then the new account (id as
    typed, hash of the password, e-mail) goes into the first free slot of the table after the clean-up, and nothing
    else changes (see C03_slot_frame_register); otherwise it is refused and every slot is as before. *)
-Theorem C03_register_exact : forall c name pw email h, gen pw = Ok h ->
+Theorem C03_register_exact : forall c name pw email,
   let rc := register c name pw email in
   if acceptable c name && negb (taken c name) && room c
   then exists k, find_empty (slots (after_clean c)) = Some k /\ fst rc = ROk (cid name) /\
-       slots (snd rc) = set_nth k (mkAcct (cid name) h (cstr_field (Z.to_nat ptttype.EMAILSZ) email) false false) (slots (after_clean c))
+       slots (snd rc) = set_nth k (mkAcct (cid name) (gen pw) (cstr_field (Z.to_nat ptttype.EMAILSZ) email) false false) (slots (after_clean c))
   else (exists e, fst rc = RErr e) /\ slots (snd rc) = slots c.
 Proof. exact register_exact. Qed.
 Print Assumptions C03_register_exact.
@@ -60,10 +60,11 @@ Theorem C03_check_passwd_exact : forall c name pw,
 Proof. exact check_pw_exact. Qed.
 Print Assumptions C03_check_passwd_exact.
 
-(* "the current password": a generated hash verifies exactly the passwords with the same key block (and nothing at
-   all when the password starts with NUL: the all-zero hash) *)
-Theorem C03_current_password : forall pw h pw', gen pw = Ok h ->
-  (verify h pw' = true <-> hd 0 pw <> 0 /\ kb pw = kb pw').
+(* "the current password": a generated hash verifies exactly the passwords with the same key block — and nothing at
+   all when the password is empty or starts with NUL: GenPasswd answers the all-zero hash for those (it used to
+   panic on the empty one), registration and password change store it, and the account can no longer log in *)
+Theorem C03_current_password : forall pw pw',
+  verify (gen pw) pw' = true <-> hd 0 pw <> 0 /\ kb pw = kb pw'.
 Proof. exact verify_gen. Qed.
 Print Assumptions C03_current_password.
 
@@ -72,10 +73,10 @@ Print Assumptions C03_current_password.
 Theorem C03_change_needs_old : forall c name old new,
   let rc := change_pw c name old new in
   (forall p, fst rc = ROk p ->
-     exists k h, lookup (slots c) (cid name) = Some k /\ id_valid name = true /\
-       verify (a_pw (nth k (slots c) no_acct)) old = true /\ gen new = Ok h /\
+     exists k, lookup (slots c) (cid name) = Some k /\ id_valid name = true /\
+       verify (a_pw (nth k (slots c) no_acct)) old = true /\
        let a := nth k (slots c) no_acct in
-       slots (snd rc) = set_nth k (mkAcct (a_id a) h (a_email a) (a_old a) (a_xempt a)) (slots c)) /\
+       slots (snd rc) = set_nth k (mkAcct (a_id a) (gen new) (a_email a) (a_old a) (a_xempt a)) (slots c)) /\
   ((forall k, lookup (slots c) (cid name) = Some k -> verify (a_pw (nth k (slots c) no_acct)) old = false) ->
      (exists e, fst rc = RErr e) /\ snd rc = c).
 Proof. exact change_needs_old. Qed.
@@ -101,8 +102,8 @@ Print Assumptions C03_slot_frame_register.
 
 (* end to end, in any letter case of the id: after a successful registration a login under any spelling of the id
    succeeds exactly with a password that has the registered password's key block, and answers the registered spelling *)
-Theorem C03_register_then_login : forall c name pw email h name' pw',
-  gen pw = Ok h -> acceptable c name && negb (taken c name) && room c = true ->
+Theorem C03_register_then_login : forall c name pw email name' pw',
+  acceptable c name && negb (taken c name) && room c = true ->
   id_valid name' = true -> key (cid name') = key (cid name) ->
   let c' := snd (register c name pw email) in
   (fst (login c' name' pw') = ROk (cid name) <-> hd 0 pw <> 0 /\ kb pw = kb pw') /\
